@@ -860,12 +860,7 @@ def emit_fn(em, idx, c, rewrites, verify=True, in_trait_impl=False):
     em.add(join(sig), origin="%s:signature" % fnid)
     if not in_trait_impl or True:
         clause_block(em, "requires", c.requires, fnid, "requires")
-        ens = list(c.ensures)
-        if VACUITY["on"] and c.requires and not trusted and not in_trait_impl:
-            # vacuity twin: with a satisfiable precondition this extra clause MUST fail
-            ens = ens + [("vacuity-twin", "false")]
-            VACUITY["fns"].append(fnid)
-        clause_block(em, "ensures", ens, fnid, "ensures")
+        clause_block(em, "ensures", c.ensures, fnid, "ensures")
     if c.decreases:
         em.add("    decreases " + c.decreases + ",")
     em.add("{", origin="%s:body" % fnid)
@@ -877,6 +872,32 @@ def emit_fn(em, idx, c, rewrites, verify=True, in_trait_impl=False):
         for ln in range(start + 1, len(em.lines) + 1):
             em.origin.setdefault(ln, "%s:body" % fnid)
     em.add("}", origin="%s:body" % fnid)
+    if VACUITY["on"] and c.requires and not trusted and not in_trait_impl:
+        # vacuity twin: a proof fn with the same parameters and the same `requires` that claims `false`; it MUST fail
+        k = sig.index("fn")
+        psig = list(sig)
+        psig[k + 1] = "vacuity_twin_" + re.sub(r"[^A-Za-z0-9_]", "_", psig[k + 1])
+        # drop the return type and turn `&mut T` parameters into `&T` (proof mode)
+        if "->" in psig:
+            psig = psig[:psig.index("->")]
+        psig2 = []
+        i2 = 0
+        while i2 < len(psig):
+            if psig[i2] == "&" and i2 + 1 < len(psig) and psig[i2 + 1] == "mut":
+                psig2.append("&")
+                i2 += 2
+                continue
+            psig2.append(psig[i2])
+            i2 += 1
+        if psig2[0] == "pub":
+            psig2 = psig2[1:]
+        em.add("proof " + join(psig2), origin="%s:vacuity-twin" % fnid)
+        em.add("    requires")
+        for lab, txt in c.requires:
+            em.add("        " + re.sub(r"\bold\(([A-Za-z0-9_]+)\)", r"\1", txt) + ",")
+        em.add("    ensures false,", origin="%s:vacuity-twin" % fnid)
+        em.add("{ }", origin="%s:vacuity-twin" % fnid)
+        VACUITY["fns"].append(fnid)
     return h
 
 
@@ -970,13 +991,20 @@ def assume_proofs(text):
     return re.sub(r"(?m)^(\s*)(pub\s+)?(broadcast\s+)?proof\s+fn\s", lambda m: m.group(1) + "#[verifier::external_body] " + (m.group(2) or "") + (m.group(3) or "") + "proof fn ", text)
 
 
+import threading
 VACUITY = {"on": False, "fns": []}
+_BUILD_LOCK = threading.Lock()
 
 
 def build_unit(idx, vc_verify, vc_trusted, spec_files, verif_root, only_fns=None, spec_import=(), module_ext=True, vacuity=False):
-    VACUITY["on"] = vacuity
-    VACUITY["fns"] = []
-    return _build_unit(idx, vc_verify, vc_trusted, spec_files, verif_root, only_fns, spec_import, module_ext)
+    # generation is fast; serialise it so that the vacuity switch is not shared between concurrent units
+    with _BUILD_LOCK:
+        VACUITY["on"] = vacuity
+        VACUITY["fns"] = []
+        text, origin, info = _build_unit(idx, vc_verify, vc_trusted, spec_files, verif_root, only_fns, spec_import, module_ext)
+        info["vacuity_fns"] = list(VACUITY["fns"])
+        VACUITY["on"] = False
+        return text, origin, info
 
 
 def _build_unit(idx, vc_verify, vc_trusted, spec_files, verif_root, only_fns=None, spec_import=(), module_ext=True):
@@ -1066,6 +1094,12 @@ def _build_unit(idx, vc_verify, vc_trusted, spec_files, verif_root, only_fns=Non
             em.add("// ---- @lemmas from %s" % f)
             em.add(text)
     emit_group(em, idx, [e for e in fn_entries if e[0].opts.get("module") != "base"], all_specs, rewrites, fninfo)
+    if VACUITY["on"]:
+        # consistency probe: with every broadcast axiom of the unit in scope, `false` must NOT be provable
+        em.add("proof fn consistency_probe()", origin="unit-axioms:vacuity-twin")
+        em.add("    ensures false,", origin="unit-axioms:vacuity-twin")
+        em.add("{ }", origin="unit-axioms:vacuity-twin")
+        VACUITY["fns"].append("unit-axioms")
     em.add("} // mod code")
     em.add("} // verus!")
     em.add("fn main() {}")
